@@ -132,6 +132,40 @@ fn failed_overwrite(kind: &str) -> i32 {
     }
 }
 
+/// F-l: prune_backups keeps the newest backup of every retention bucket and deletes the rest without looking at
+/// `parent_id`: a full backup and an incremental taken within the same hour fall into one bucket, the incremental is the
+/// newest, the full backup is deleted, and the retained incremental can no longer be restored.
+fn prune_breaks_chain() -> i32 {
+    use kyrodb_engine::backup::{BackupManager, RestoreManager, RetentionPolicy, ClearDirectoryOptions};
+    let tmp = tempfile::TempDir::new().unwrap();
+    let data = tmp.path().join("data");
+    let backups = tmp.path().join("backups");
+    let restore = tmp.path().join("restore");
+    std::fs::create_dir_all(&backups).unwrap();
+    std::fs::create_dir_all(&restore).unwrap();
+    let b = open_new(&data, DistanceMetric::Euclidean, 0, 0);
+    b.insert(1, vec![1.0, 0.0, 0.0, 0.0], HashMap::new()).unwrap();
+    b.create_snapshot().unwrap();
+    let mgr = BackupManager::new(&backups, &data).unwrap();
+    let full = mgr.create_full_backup("full".to_string()).unwrap();
+    b.insert(2, vec![0.0, 1.0, 0.0, 0.0], HashMap::new()).unwrap();
+    std::thread::sleep(Duration::from_millis(1100));
+    let inc = mgr.create_incremental_backup(full.id, "inc".to_string()).unwrap();
+    drop(b);
+    let deleted = mgr.prune_backups(&RetentionPolicy::default()).unwrap();
+    let remaining: Vec<_> = mgr.list_backups().unwrap().iter().map(|m| m.id).collect();
+    if !remaining.contains(&inc.id) { println!("NOT-REPRODUCED: the incremental backup was not retained (deleted: {:?})", deleted); return 0; }
+    let rm = RestoreManager::new(&backups, &restore).unwrap();
+    match rm.restore_from_backup_with_options(inc.id, &ClearDirectoryOptions::new().with_allow_clear(true)) {
+        Ok(()) => { println!("NOT-REPRODUCED: the retained incremental backup restores (pruned: {:?})", deleted); 0 }
+        Err(e) => {
+            if deleted.contains(&full.id) {
+                println!("REPRODUCED: prune_backups(default policy) deleted full backup {} although the retained incremental {} depends on it; restoring the incremental fails: {:#}", full.id, inc.id, e); 1
+            } else { println!("NOT-REPRODUCED: restore failed for another reason: {:#}", e); 0 }
+        }
+    }
+}
+
 /// F-k: with `disable_normalization_check` the pre-log validation accepts a vector whose squared norm overflows under
 /// Cosine / InnerProduct: normalisation multiplies every lane by 1/sqrt(inf) = 0, the all-zero result is finite, is
 /// logged and acknowledged, and the replay-time normalisation then refuses it ("norm is zero"): restart fails.
@@ -356,6 +390,7 @@ fn main() {
         Some("midframe-eof") => midframe_eof(),
         Some("failed-overwrite") => failed_overwrite(args.get(2).map(|s| s.as_str()).unwrap_or("nan")),
         Some("zero-after-normalize") => zero_after_normalize(),
+        Some("prune-breaks-chain") => prune_breaks_chain(),
         Some("periodic-idle") => periodic_idle(),
         Some("periodic-idle-inner") => periodic_idle_inner(args.get(2).map(|s| s.as_str()).unwrap_or("/nonexistent")),
         Some("crash-after-unlink") => crash_after_unlink(),
